@@ -134,7 +134,7 @@ check("C10", "the directory is a valid OCI layout equal to the API state", "expl
       "across dir/mem, across Close+reopen and against a mem store layered over the directory. TestC10Faults (vfs build): the k-th mutating file-system call of a generated history fails with EIO "
       "(k uniform over the calls), the history continues; at the end the tree must be a valid layout and the running server and a new server on the directory must answer every read alike.",
       "Trusted: the validator in harness/layout.go (written from the image-layout spec wording quoted by the property); by-digest visibility of manifests touched by open finding "
-      "orphaned-child (finding 12) is excluded from the differentials and counted.",
+      "orphaned-child (finding 12) is excluded from the differentials and counted; while finding C10/gc-save-failed-entries-without-blob is listed, TestC10Faults judges a collecting case's directory after the next collection (counted).",
       "DESIGN.md §3 C10",
       [R("^TestC10$", 3600, 60000, shards=(8, 16), steps=30), R("^TestC10FirstWrite$", 4000, 100000), R("^TestC10CloseFinal$", 640, 16000),
        R("^TestC10Faults$", 10000, 300000, variant="vfs")])
